@@ -59,6 +59,17 @@ type connState struct {
 	n      int
 	failAt int // index of the write that fails after half of its bytes (-1: none)
 	log    []connWrite
+	// gate, when set, makes every Write wait until it is closed (a synchronous transport whose
+	// peer is not reading); entered is signalled when a Write starts waiting
+	gate    chan struct{}
+	entered chan struct{}
+}
+
+func (cs *connState) setGate(g chan struct{}) {
+	cs.mu.Lock()
+	cs.gate = g
+	cs.entered = make(chan struct{}, 8)
+	cs.mu.Unlock()
 }
 
 type connWrite struct {
@@ -71,6 +82,13 @@ var errInjectedWrite = errors.New("c10: injected write failure")
 func (c conn) Write(p []byte) (int, error) {
 	if c.st == nil {
 		return c.out.Write(p)
+	}
+	c.st.mu.Lock()
+	gate, entered := c.st.gate, c.st.entered
+	c.st.mu.Unlock()
+	if gate != nil {
+		entered <- struct{}{}
+		<-gate
 	}
 	c.st.mu.Lock()
 	i := c.st.n
@@ -674,6 +692,74 @@ func (c *ctxT) deadlineStorm() {
 	r.Case("deadline-storm", true, "deadline-storm")
 }
 
+// closeBlocked: Close while the connection does not take the closing tag (synchronous
+// transport, peer busy).  While Close waits in its write the session must keep reading: Serve
+// handles the peer's stanzas and State() answers.  Then the write is let through.
+func (c *ctxT) closeBlocked() {
+	r := c.r
+	line := "closeblock"
+	lines := []string{r.Prop + " " + line}
+	t, err := newSess()
+	if err != nil {
+		r.Line(line, "ERR")
+		return
+	}
+	defer t.close()
+	t.startServe()
+	if !t.feedWithin(" ", 2*time.Second) {
+		r.Line(line, "ERR serve does not read")
+		return
+	}
+	gate := make(chan struct{})
+	t.cst.setGate(gate)
+	closeDone := make(chan error, 1)
+	go func() { closeDone <- t.s.Close() }()
+	select {
+	case <-t.cst.entered:
+	case <-time.After(3 * time.Second):
+		close(gate)
+		r.Line(line, "ERR close did not reach the connection")
+		return
+	}
+	handled := 0
+	for i := 0; i < 2; i++ {
+		if !t.feedWithin(fmt.Sprintf("<message id='b%d' type='chat'/> ", i), time.Second) {
+			break
+		}
+		select {
+		case <-t.handled:
+			handled++
+		case <-time.After(time.Second):
+		}
+	}
+	stateOK := common.WithTimeout(time.Second, func() { t.s.State() })
+	reads := "ok"
+	if handled < 2 || !stateOK {
+		reads = "blocked"
+		r.Fail("close-blocks-reads", "Close", lines, fmt.Sprintf("while Close waits for the connection to take the closing tag, Serve handled %d of 2 stanzas the peer sent and State() %s: the session's read path is blocked by Close", handled, map[bool]string{true: "returned", false: "blocked"}[stateOK]))
+	}
+	close(gate)
+	select {
+	case e := <-closeDone:
+		if e != nil {
+			r.Fail("close-returns", "closeblock", lines, e.Error())
+		}
+	case <-time.After(5 * time.Second):
+		r.Fail("close-returns", "closeblock", lines, "Close did not return after the connection took the closing tag")
+	}
+	t.feedWithin(closeTag, 2*time.Second)
+	if t.waitServe(5 * time.Second) {
+		if got := classifyRet(t.ret); got != "nil" {
+			r.Fail("serve-returns", "closeblock", lines, "Serve returned "+got)
+		}
+	} else {
+		r.Fail("serve-returns", "closeblock", lines, "Serve did not return after the peer closed the stream")
+	}
+	tags := bytes.Count(t.out.Bytes(), []byte(closeTag))
+	r.Line(line, fmt.Sprintf("reads=%s tags=%d", reads, tags))
+	r.Case(line, true, "closeblock")
+}
+
 func clip(b []byte) string {
 	if len(b) > 300 {
 		return string(b[:300]) + "…"
@@ -729,6 +815,22 @@ func Run(r *common.Run) error {
 			if len(f) == 4 && f[0] == "C10" && f[1] == "sched" {
 				c.schedules(true)
 			}
+			if len(f) == 2 && f[0] == "C10" && f[1] == "closeblock" {
+				c.closeBlocked()
+			}
+			if len(f) == 4 && f[0] == "C10" && f[1] == "whist" {
+				fa := -1
+				if f[2] != "-" {
+					fmt.Sscan(f[2], &fa)
+				}
+				c.whist(fa, strings.Split(f[3], ","))
+			}
+			if len(f) >= 1 && strings.HasPrefix(f[0], "#scenario=") {
+				c.schedules(true)
+				for i := 0; i < 3; i++ {
+					c.deadlineStorm()
+				}
+			}
 		}
 		return nil
 	}
@@ -738,6 +840,7 @@ func Run(r *common.Run) error {
 		c.schedules(true)
 		for i := 0; i < 5; i++ {
 			c.deadlineStorm()
+			c.closeBlocked()
 		}
 		for _, h := range [][]string{{"d"}, {"m", "df", "m", "dp"}, {"df", "c", "p"}, {"y", "dz", "y"}, {"m", "d"}, {"c", "dp"}} {
 			for i := 0; i < 10; i++ {
@@ -746,6 +849,8 @@ func Run(r *common.Run) error {
 		}
 		return nil
 	}
+	r.Mark("case close-blocked")
+	c.closeBlocked()
 	r.Mark("case corpus")
 	for _, h := range [][]string{
 		{"c", "t1"}, {"c", "t2"}, {"c", "t3"}, {"c", "t4"}, {"c", "t5"}, {"c", "t6"}, {"c", "c"},
